@@ -156,6 +156,12 @@ pub fn conversion_defect(e: &Event) -> Option<String> {
                 Event::Comment(_) => Event::Comment(b),
                 _ => Event::DocType(b),
             };
+            // the decoder travels with the event: unescaping gives the same whichever copy is asked
+            let un = |x: &quick_xml::events::BytesText| x.unescape().map(|c| c.into_owned()).map_err(|e| e.to_string());
+            let base_un = un(t);
+            if un(&t.borrow()) != base_un || un(&t.clone()) != base_un || un(&t.clone().into_owned()) != base_un || un(&t.borrow().into_owned()) != base_un {
+                return Some(format!("unescape() of a borrowed / cloned / owned copy of {:?} differs from unescape() of the event: {:?} / {:?} / {:?} vs {:?}", B::show(bytes), un(&t.borrow()), un(&t.clone()), un(&t.clone().into_owned()), base_un));
+            }
             same!("BytesText::into_owned", raw(wrap(t.clone().into_owned())));
             same!("BytesText::borrow + into_owned", raw(wrap(t.borrow().into_owned())));
             if &t.clone().into_inner()[..] != bytes || &t.clone().into_owned().into_inner()[..] != bytes {
@@ -166,6 +172,11 @@ pub fn conversion_defect(e: &Event) -> Option<String> {
             }
         }
         Event::CData(c) => {
+            let esc = |x: quick_xml::events::BytesCData| x.escape().map_err(|e| e.to_string()).and_then(|t| t.unescape().map(|c| c.into_owned()).map_err(|e| e.to_string()));
+            let base_esc = esc(c.clone());
+            if esc(c.borrow()) != base_esc || esc(c.clone().into_owned()) != base_esc {
+                return Some(format!("escape() + unescape() of a borrowed / owned copy of the section {:?} differs from that of the event", B::show(bytes)));
+            }
             same!("BytesCData::into_owned", raw(Event::CData(c.clone().into_owned())));
             same!("BytesCData::borrow + into_owned", raw(Event::CData(c.borrow().into_owned())));
             if &c.clone().into_inner()[..] != bytes {
